@@ -1,6 +1,7 @@
 """One property check = a list of stages (model checking, gen-replay, record-validate, ...)
 run by a Check object that collects statistics and violations, matches violations
 against /verif/known_findings.json, writes the evidence file and decides the exit code."""
+import re
 import json, os, subprocess, sys, time, concurrent.futures as cf
 from . import core
 from .core import ToolError, log
@@ -232,6 +233,9 @@ class Check:
                 tot_events += summ["events"]
                 tot_states += v["states"]
                 self.add_features(summ.get("features"), name + ".")
+                for mm in re.finditer(r'<<"EXACT-ROUNDING", (\d+), (\d+)>>', v.get("text", "")):
+                    # HelperTrace.tla: documented rounding recomputed exactly by TLC (a count for the evidence, not a C16 clause)
+                    self.add_features({"documented_rounding_recomputed_by_TLC": int(mm.group(1)), "documented_rounding_matched": int(mm.group(2))}, name + ".")
                 if summ.get("samples") and len([s for s in self.samples if s["stage"] == name]) < 1:
                     self.samples.append({"stage": name, "kind": "event recorded from the real code and accepted by TLC",
                                          "case": strip_views(summ["samples"][0])})
